@@ -716,60 +716,69 @@ func structPositions(out *[]*position, n *model.Node, s *spec, path []seg, inlin
 	}
 }
 
-// failsOnZero: the first setting (relative dotted path) whose validation fails
-// when the whole struct setting is absent, i.e. on zero values; "" if none or
-// if a nested struct makes the order of evaluation a matter of its own.
+// failsOnZero: the ONE setting (relative dotted path) whose validation fails
+// when the whole struct setting is absent or null, i.e. on zero values; "" if
+// there is none, if there are several (the variant would carry more than one
+// fault and the library may report any of them), or if a nested struct, an
+// array or a validating element type makes the outcome a matter of its own.
 func (s *spec) failsOnZero() string {
+	keys, uncertain := s.zeroFailures()
+	if uncertain || len(keys) != 1 {
+		return ""
+	}
+	return keys[0]
+}
+
+// zeroFailures lists every setting of the struct that is invalid on its zero
+// value; uncertain: something in the struct is not decided here.
+func (s *spec) zeroFailures() (keys []string, uncertain bool) {
 	for _, f := range s.fields {
 		if f.inline {
-			if r := f.sp.failsOnZero(); r != "" {
-				return r
-			}
-			if f.sp.hasStructField() {
-				return ""
-			}
+			k, u := f.sp.zeroFailures()
+			keys, uncertain = append(keys, k...), uncertain || u
 			continue
 		}
 		fs := f.sp
 		if fs.ptr {
 			if hasTag(f.tag, "required") {
-				return f.dottedKey()
+				keys = append(keys, f.dottedKey())
 			}
 			continue
 		}
 		switch fs.kind {
 		case kStruct:
-			return ""
+			if k, u := fs.zeroFailures(); u || len(k) > 0 {
+				uncertain = true
+			}
 		case kLeaf:
 			if fs.leaf == lSpan {
-				return ""
+				uncertain = true
+				continue
 			}
 			num := fs.leaf.number()
 			if hasTag(f.tag, "required") || (hasTag(f.tag, "nonzero") && (num || fs.leaf == lString || fs.leaf == lDuration)) || (hasTag(f.tag, "min") && (num || fs.leaf == lDuration)) ||
 				fs.leaf == lPort || fs.leaf == lIdent {
-				return f.dottedKey()
+				keys = append(keys, f.dottedKey())
 			}
 		case kSlice:
 			if hasTag(f.tag, "required") {
-				return f.dottedKey()
+				keys = append(keys, f.dottedKey())
+			} else if f.tag != "" {
+				uncertain = true
+			}
+		case kMap:
+			if f.tag != "" {
+				uncertain = true
 			}
 		case kArray:
-			// an absent array is a zero array whose elements are validated too
-			if e := fs.elem; e.kind != kLeaf || e.leaf == lPort || e.leaf == lIdent || e.leaf == lSpan {
-				return ""
+			// an array without a setting is a zero array: its elements are
+			// validated (their own Validate, the validators of the field)
+			if e := fs.elem; e.kind != kLeaf || e.leaf == lPort || e.leaf == lIdent || e.leaf == lSpan || f.tag != "" {
+				uncertain = true
 			}
 		}
 	}
-	return ""
-}
-
-func (s *spec) hasStructField() bool {
-	for _, f := range s.fields {
-		if f.sp.kind == kStruct && !f.sp.ptr || f.sp.kind == kLeaf && f.sp.leaf == lSpan {
-			return true
-		}
-	}
-	return false
+	return keys, uncertain
 }
 
 func genericPositions(out *[]*position, n *model.Node, path, root []seg) {
